@@ -30,7 +30,10 @@ PHRASE_LIMIT_SITE = "do_crypt"
 
 
 def creads(trace):
-    return sorted({(e["callee"], tuple(e["off"]), tuple(e["len"])) for e in trace if e.get("k") == "cread" and e.get("reg") == "setting"})
+    """digest-contract reads of the setting: (callee, length, digest of the abstract content).  The offset is left out on
+    purpose: H may spell the setting part differently from S (a normalised cost field), which moves the salt; what must
+    agree is what the primitive is given"""
+    return sorted({(e["callee"], tuple(e["len"]), e.get("content")) for e in trace if e.get("k") == "cread" and e.get("reg") == "setting"})
 
 
 def cinputs(trace):
